@@ -170,6 +170,8 @@ def case(ctx, i, rng):
     dr = {U.mesh: rng.choice(["+", "+", "-"])} if mode == "default" else None
     if rng.random() < 0.12:
         reference_value_consistency(ctx, rng, U, dr)
+    if rng.random() < 0.15:
+        pipeline_route(ctx, rng, U, pre, status, mode, worlds, cplx)
     try:
         out = apply_restrictions(pre, default_restrictions=dr) if dr is not None else apply_restrictions(pre)
         accepted = True
@@ -228,6 +230,85 @@ def case(ctx, i, rng):
                     if sd:
                         ctx.violation(f"C17/output-unrestricted-side-dependent/{type(t).__name__}", "a side-dependent terminal is left unrestricted", {"output": str(out)[:800]})
                         break
+
+
+def pipeline_route(ctx, rng, U, pre, status, mode, worlds, cplx):
+    """The same integrand through compute_form_data, under dS and under the interior facet measures of extruded meshes
+    (dS_h, dS_v): interior facet integrals of every name get their restrictions propagated / checked."""
+    from ufl.algorithms import compute_form_data
+
+    itn = rng.choice(["interior_facet", "interior_facet_horiz", "interior_facet_vert", "interior_facet_horiz", "interior_facet_vert"])
+    meas = {"interior_facet": ufl.dS, "interior_facet_horiz": ufl.dS_h, "interior_facet_vert": ufl.dS_v}[itn]
+    tag = f"compute_form_data:{itn}"
+    ctx.count("pipeline_route")
+    try:
+        form = pre * meas(domain=U.mesh)
+        fd = compute_form_data(form, do_apply_function_pullbacks=False, do_apply_geometry_lowering=False, do_apply_integral_scaling=False,
+                               do_estimate_degrees=False, do_append_everywhere_integrals=False, do_replace_functions=False, complex_mode=cplx,
+                               do_apply_restrictions=True, do_apply_default_restrictions=(mode == "default"))
+        outs = [itg.integrand() for ida in fd.integral_data for itg in ida.integrals]
+        accepted = True
+    except BaseException as ex:
+        if isinstance(ex, (KeyboardInterrupt, SystemExit)) or type(ex).__name__ == "CaseTimeout":
+            raise
+        accepted = False
+        outs = []
+        ctx.covered("pipeline_rejected_with", type(ex).__name__)
+    if "ambiguous" in status or "nested" in status:
+        ctx.count("pipeline_ambiguity_checks")
+        if accepted and mode == "default" and outs:
+            what = "doubly-restricted" if "nested" in status else "unrestricted-side-dependent-quantity"
+            culprit = _ambiguous_terminal(pre, worlds) if what != "doubly-restricted" else "Restricted(Restricted)"
+            ctx.violation(f"C17/accepted-{what}/{culprit}/{tag}", f"compute_form_data (default restrictions on) accepted a {itn} integrand with a {what}",
+                          {"input": str(pre)[:1200], "output": str(outs[0])[:800]})
+        return
+    if not accepted or len(outs) != 1 or any(s_ != "ok" for s_ in status):
+        ctx.count("pipeline_not_judged")
+        return
+    out = outs[0]
+    vs = oracle.preserved(pre, out, worlds)
+    kinds = [v.kind for v in vs]
+    verdict = oracle.decide(vs)
+    if "output-ambiguous" in kinds:
+        verdict = "violated"
+    ctx.count("pipeline_" + verdict)
+    if verdict == "violated":
+        bad = next(v for v in vs if v.kind in ("disagree", "output-ambiguous"))
+        ctx.violation(f"C17/apply_restrictions-{mode}/value/{tag}", f"compute_form_data changed the two-sided value of a {itn} integrand ({bad.kind}, rel. err {bad.err}, {bad.why})",
+                      {"input": str(pre)[:1200], "output": str(out)[:1200]})
+        return
+    if verdict == "held" and mode == "default":
+        ctx.count("pipeline_structure_checks")
+        ctx.covered("pipeline_itypes_held", itn)
+        gen_worlds = [World(rng, U.cell, U.gdim, "interior_facet", cplx, conforming=True) for _ in range(2)]
+        for t, depth in restriction_depths(out):
+            if depth > 1:
+                ctx.violation(f"C17/output-restricted-twice/{type(t).__name__}/{tag}", "a terminal ends up under two Restricted nodes", {"output": str(out)[:800]})
+                break
+            if depth == 0 and side_dependent(t, gen_worlds):
+                ctx.violation(f"C17/output-unrestricted-side-dependent/{type(t).__name__}/{tag}", "a side-dependent terminal is left unrestricted", {"output": str(out)[:800]})
+                break
+        # propagation reaches the terminals: no Restricted node above a non-terminal
+        for sub in _restricted_nonterminals(out):
+            ctx.violation(f"C17/restriction-not-propagated/{sub}/{tag}", f"after compute_form_data a restriction still sits on a {sub} node", {"output": str(out)[:800]})
+            break
+
+
+def _restricted_nonterminals(e):
+    seen = set()
+    stack = [e]
+    while stack:
+        o = stack.pop()
+        if id(o) in seen:
+            continue
+        seen.add(id(o))
+        if type(o).__name__ in ("PositiveRestricted", "NegativeRestricted"):
+            t = o.ufl_operands[0]
+            while type(t).__name__ in ("Grad", "ReferenceGrad", "ReferenceValue", "Conj", "Real", "Imag"):
+                t = t.ufl_operands[0]
+            if not t._ufl_is_terminal_:
+                yield type(t).__name__
+        stack.extend(o.ufl_operands)
 
 
 def _ambiguous_terminal(e, worlds):
